@@ -292,10 +292,11 @@ class Interp:
         env = {}
         for i, a in enumerate(args):
             env[i + 1] = a
-        bb = 0
-        steps = 0
-        while steps < 400:
-            steps += 1
+        return self._run(f, env, 0, depth, [400])
+
+    def _run(self, f, env, bb, depth, fuel):
+        while fuel[0] > 0:
+            fuel[0] -= 1
             self._cur = f
             blk = f["bbs"][bb]
             for s in blk["s"]:
@@ -316,6 +317,7 @@ class Interp:
                 cname = c.get("res") or c["def"]
                 av = [self.operand(env, a) for a in t[2]]
                 self.write_place(env, t[3], self.call(cname, av, depth + 1))
+                self._cur = f
                 bb = t[4]
             elif t[0] == "ret":
                 return env.get(0, T)
@@ -323,6 +325,12 @@ class Interp:
                 v = self.operand(env, t[1])
                 c = as_const(v) if v != T and v[0] == "int" else None
                 if c is None:
+                    # short-circuit conjunction / disjunction of zero tests: `A == 0 && B == 0`
+                    if v != T and v[0] in ("eq0", "ne0") and len(t[2]) == 1 and t[2][0][0] == 0:
+                        fl, tr = t[2][0][1], t[3]       # value 0 -> fl ; otherwise -> tr
+                        r_false = self._run(f, dict(env), fl, depth, fuel)
+                        r_true = self._run(f, dict(env), tr, depth, fuel)
+                        return self._join_bool(v, r_true, r_false)
                     return T
                 nxt = t[3]
                 for val, tg in t[2]:
@@ -331,6 +339,29 @@ class Interp:
                 bb = nxt
             else:
                 return T
+        return T
+
+    @staticmethod
+    def _join_bool(cond, r_true, r_false):
+        """result of `if cond { r_true } else { r_false }` for boolean zero-tests"""
+        def const(x):
+            return as_const(x) if x != T and x[0] == "int" and x[1] == 1 else None
+        if cond[0] == "eq0":
+            # cond && rest :  false-branch must be constant false
+            if const(r_false) == 0:
+                if const(r_true) == 1:
+                    return ("eq0", list(cond[1]))
+                if r_true != T and r_true[0] == "eq0":
+                    return ("eq0", list(cond[1]) + [x for x in r_true[1] if x not in cond[1]])
+            return T
+        if cond[0] == "ne0":
+            # (X != 0) ? r_true : r_false  ==  !(X == 0) ...: `if x != 0 { false } else { rest }`
+            if const(r_true) == 0:
+                if const(r_false) == 1:
+                    return ("eq0", list(cond[1]))
+                if r_false != T and r_false[0] == "eq0":
+                    return ("eq0", list(cond[1]) + [x for x in r_false[1] if x not in cond[1]])
+            return T
         return T
 
 
